@@ -1557,9 +1557,9 @@ class DynamicBase(BaseSpaceImpl):
 
     def on_namespace_change(self):
         ItemSpaceParent.on_namespace_change(self)
-        # Use dict instead of list to avoid duplicates
-        for r in {s.rootspace: True for s in self._dynamic_subs}:
-            r.del_all_itemspaces()
+        # The dynamic spaces copied from this space are stale:
+        # delete the ItemSpaces they belong to
+        self.clear_subs_rootitems()
 
     def change_dynsub_refs(self, name):
 
